@@ -3,31 +3,37 @@ use crate::storage;
 use acme_common::crypto::{gen_keypair, KeyPair};
 use acme_common::error::Error;
 
+// The new key pair is not stored here: it is installed together with the
+// certificate once the latter has been obtained (see `request_certificate`).
 async fn gen_key_pair(cert: &Certificate) -> Result<KeyPair, Error> {
 	let key_pair = gen_keypair(cert.key_type)?;
 	#[cfg(feature = "breard_r_acmed_verif")]
 	crate::verif::emit("KeyPair", serde_json::json!({"how": "generated"}));
-	storage::set_keypair(&cert.file_manager, &key_pair).await?;
 	Ok(key_pair)
+}
+
+pub async fn store_key_pair(cert: &Certificate, key_pair: &KeyPair) -> Result<(), Error> {
+	storage::set_keypair(&cert.file_manager, key_pair).await
 }
 
 async fn read_key_pair(cert: &Certificate) -> Result<KeyPair, Error> {
 	storage::get_keypair(&cert.file_manager).await
 }
 
-pub async fn get_key_pair(cert: &Certificate) -> Result<KeyPair, Error> {
+/// Returns the key pair to use and whether it is a new one (not stored yet).
+pub async fn get_key_pair(cert: &Certificate) -> Result<(KeyPair, bool), Error> {
 	if cert.kp_reuse {
 		match read_key_pair(cert).await {
 			#[cfg(feature = "breard_r_acmed_verif")]
 			Ok(key_pair) => {
 				crate::verif::emit("KeyPair", serde_json::json!({"how": "reused"}));
-				Ok(key_pair)
+				Ok((key_pair, false))
 			}
 			#[cfg(not(feature = "breard_r_acmed_verif"))]
-			Ok(key_pair) => Ok(key_pair),
-			Err(_) => gen_key_pair(cert).await,
+			Ok(key_pair) => Ok((key_pair, false)),
+			Err(_) => Ok((gen_key_pair(cert).await?, true)),
 		}
 	} else {
-		gen_key_pair(cert).await
+		Ok((gen_key_pair(cert).await?, true))
 	}
 }
